@@ -87,10 +87,13 @@ PROPS = {
     "C15": dict(functions=[], lemmas=[], bounded="C15", level="exploration"),
     # C16: date, time-millis, time-micros: the stored integer is the specification's (days from 1970-01-01, units after
     # midnight), the readers invert it on the whole stored domain (calendar objects through observer functions and
-    # assumed constructor contracts); timestamps, uuid and decimals are bounded
-    "C16": dict(functions=[("fastavro/_logical_writers_py.py", r"prepare_(time_millis|time_micros|date)", "default"),
+    # assumed constructor contracts); decimal WRITERS: the bytes are the two's complement of the unscaled integer
+    # (-1)**sign * digits * 10**(exponent + scale), ValueError when precision / scale / size cannot hold the number;
+    # timestamps, uuid and read_decimal are bounded
+    "C16": dict(functions=[("fastavro/_logical_writers_py.py", r"prepare_(time_millis|time_micros|date|bytes_decimal|fixed_decimal)", "default"),
                            ("fastavro/_logical_readers_py.py", r"read_(time_millis|time_micros|date)", "default")],
-                lemmas=["time_millis_roundtrip", "time_micros_roundtrip", "time_millis_onto", "time_micros_onto"],
+                lemmas=["time_millis_roundtrip", "time_micros_roundtrip", "time_millis_onto", "time_micros_onto",
+                        "pow2_step", "pow2_mono", "pow10_pos", "digit_at", "tnth_left", "digits_prefix", "zeros_len", "digits_zeros"],
                 bounded="C16", level="exploration"),
     # C19: _inject_schema returns INJ (spec/inject.py): the loaded type inlined at its FIRST use, depth first, left to
     # right, namespace-relative references resolved; the loader around it (files, retry loop) is bounded
